@@ -162,6 +162,27 @@ def external_probe() -> dict:
     return d
 
 
+_SC_PROBE: list = []
+
+
+def _string_cache_probe():
+    """polars' string-cache flag - unless asking for it warns (deprecated in newer polars): decided once, quietly;
+    the probe itself must never touch the warning filters it reports on."""
+    import polars as pl
+
+    if not _SC_PROBE:
+        import warnings
+
+        with warnings.catch_warnings(record=True) as rec:
+            warnings.simplefilter("always")
+            try:
+                pl.using_string_cache()
+                _SC_PROBE.append(not rec)
+            except Exception:  # noqa: BLE001
+                _SC_PROBE.append(False)
+    return pl.using_string_cache() if _SC_PROBE[0] else None
+
+
 def external_sig():
     """Process-global state outside the package that library code could plausibly
     touch (cheap probes only): cwd, environment, decimal context, locale,
@@ -182,11 +203,7 @@ def external_sig():
     except Exception:  # noqa: BLE001
         loc = None
     try:
-        import polars as pl
-
-        with warnings.catch_warnings():
-            warnings.simplefilter("ignore")  # deprecated in newer polars; the probe must stay quiet under "always"
-            pl_sc = pl.using_string_cache()
+        pl_sc = _string_cache_probe()
     except Exception:  # noqa: BLE001
         pl_sc = None
     return (cwd, hash(frozenset(os.environ.items())), ctx.prec, ctx.rounding, loc, sys.getrecursionlimit(),
@@ -209,6 +226,7 @@ class FastSig:
         self._deep = None
         self._inst_types = set()
         self._other_types = set()
+        external_sig()  # one-time decisions of the probes happen here, before any hook or tracer is installed
         self._rescan()
 
     def _mods(self):
